@@ -1309,8 +1309,8 @@ VARIANTS = [
             "                if origin in {\"frozen\", \"built-in\"}:\n                    try:\n                        module = importlib.import_module(node.module)  # __import__('a.b') would return a",
             "                if origin in {\"frozen\", \"built-in\"}:\n                    try:\n                        module = __import__(node.module, fromlist=[\"*\"])"),
     Variant("star-imports-kept-while-names-are-untraced", "SILENT", "tracing",
-            "    for name in undefined_names:\n        if trace_result := trace_origin(name, source):\n            if core.match_template(trace_result.ast, template):\n                starred_import_name_mapping[trace_result.ast].add(name)\n",
-            "    untraced_names = set()\n    for name in undefined_names:\n        if trace_result := trace_origin(name, source):\n            if core.match_template(trace_result.ast, template):\n                starred_import_name_mapping[trace_result.ast].add(name)\n        else:\n            untraced_names.add(name)\n",
+            "    for name in sorted(undefined_names | passed_on_names):\n        if trace_result := trace_origin(name, source):\n            if core.match_template(trace_result.ast, template):\n                starred_import_name_mapping[trace_result.ast].add(name)\n",
+            "    untraced_names = set()\n    for name in sorted(undefined_names | passed_on_names):\n        if trace_result := trace_origin(name, source):\n            if core.match_template(trace_result.ast, template):\n                starred_import_name_mapping[trace_result.ast].add(name)\n        else:\n            untraced_names.add(name)\n",
             extra=[("tracing", "    # Remove remaining starred imports\n    for node in core.filter_nodes(root.body, template):", "    if untraced_names:\n        return\n\n    for node in core.filter_nodes(root.body, template):")]),
     Variant("alias-found-under-its-original-name", "FIRE", "tracing",
             "                    original_name = next(\n                        alias.name\n                        for alias in module_import_node.names\n                        if alias.asname == name or (alias.asname is None and alias.name == name)\n                    )",
